@@ -480,7 +480,7 @@ func (c *stickyComp) Gen(rng *rand.Rand, idx int, tier string, targeted bool) hl
 		case r < 80:
 			remove(rng.Intn(nu))
 		default:
-			h.Ops = append(h.Ops, []int64{4, hlib.Pick(rng, 100e6, 700e6, 1e9, 1300e6, 1999e6, 3e9, 10e9, 61e9)})
+			h.Ops = append(h.Ops, []int64{4, hlib.Pick(rng, 100e6, 700e6, 1e9, 1300e6, 1999e6, 3e9, 10e9, 61e9, -1e9, -3e9)})
 		}
 	}
 	return h
@@ -623,11 +623,13 @@ func (c *stickyComp) Run(h *hlib.History) (mons []hlib.Mon, ok bool) {
 		req := httptest.NewRequest(http.MethodGet, "http://front.example/some/path?z=1", nil)
 		if cookie != nil {
 			nreq++
-			switch nreq % 4 {
+			switch nreq % 5 {
 			case 1: // other cookies first, on a line of their own: the affinity cookie comes on the second Cookie line
 				req.Header["Cookie"] = []string{"theme=dark; lang=en", cookieName + "=" + *cookie}
 			case 2: // ... or on the same line, after other cookies
 				req.Header.Set("Cookie", "theme=dark; "+cookieName+"="+*cookie+"; lang=en")
+			case 3: // ... or twice under the affinity name (a leftover scoped to a parent path comes second): the first one counts
+				req.Header.Set("Cookie", cookieName+"="+*cookie+"; "+cookieName+"=left-over-"+strconv.Itoa(nreq))
 			default:
 				req.Header.Set("Cookie", cookieName+"="+*cookie)
 			}
@@ -719,7 +721,7 @@ func (c *stickyComp) Run(h *hlib.History) (mons []hlib.Mon, ok bool) {
 			}
 			note(fmt.Sprintf("Remove(%s)", universe[u]))
 		case len(op) == 2 && op[0] == 4:
-			if op[1] < 0 || op[1] > 1e12 {
+			if op[1] < -1e12 || op[1] > 1e12 { // (negative: the wall clock is set back; cookie lifetimes are wall-clock times)
 				return nil, false
 			}
 			clock.Advance(time.Duration(op[1]))
